@@ -131,15 +131,15 @@ ADDED = {
     "C04": "Each case also with X-Amz-Expires (0 .. 604800 s, signed query parameter / signed header plus an Expires header) and with or without a session token. Plus every sequence of 1..3 operations {prevalidate, validate_signature, validate_signature on a clone} x 5 server clocks on one authenticator object (unstable API), each judged alone. Renderings with fractions of 20, 49 and 309 digits; operation sequences also over 3 configurations. Every ordered pair of requests on one thread whose date texts share the wall-clock digits and a fraction of 0 / 9 / 21 / 40 digits and differ only in the zone designator. Distances at integer-type edges (+-2^31 .. 2^36 s, multiples of 2^32 s, 2^63 / 2^64 ns, 2^31 / 2^32 ms, 2^53 us), each exactly and up to 901 s to either side. Fresh / hour-old requests with a date input of the other carrier as an unsigned bystander x bodies of 0, 1 MiB + 1, 8 MiB + 1, 16 MiB + 1 (thorough 64 MiB + 1) bytes. Presigned folded requests with X-Amz-Date in the URL and in the body on opposite sides of the window x 0..10 other body x 0 / 2 / 6 other URL parameters: the URL's date counts.",
     "C05": "Plus signed-header lists as multisets (names repeated, every entry doubled, a name not sent) x 64 requirement sets x 15 presence sets x every signed subset, judged in the direction the property states; and 256 requirement sets with overlapping declarations (a name under a declared prefix, one name in two categories) x presence subsets x signed subsets. A form POST signed correctly under each of the 4 readings (folded or not, S3 or normalised path) x the server under each of the 4 option sets x 64 requirement sets x every signed subset x carrier. Every second case repeats each header as a query parameter of the same name and value. A header <prefix><c>[tag] for every header-name character c (51), unsigned and signed, under two declared prefixes. A sorted signed list of 7 names holding a near-miss of a required name (10 kinds) with or without the name itself. An unsigned mandatory header together with a defect later rules look at (malformed date, four-part credential, foreign scope, expired date): still refused as a signature mismatch.",
     "C07": "Three further request shapes carry the presented signature twice (repeated X-Amz-Signature, repeated Signature= field, stray X-Amz-Signature next to header authentication); the refusal is also traced on an authenticator assembled through the unstable builder; every traced child starts after one acceptance and 14 refusals for the same key. Three more request shapes (Host with a port; token and 12 more signed headers; folded form behind an absolute target). The refusal is also traced while another validation of the very same request (correctly signed, or a wrong guess right up to its last character) is suspended in its key provider's future. Three more traced requests whose nonce makes the expected signature begin with '00', end in '00' or begin with 'ff'. Pairs of wrong characters a multiple of 8 positions apart that differ from the right ones by the same bit mask. Two traced requests with a millisecond timestamp whose guesses are built around the signature that is right for a near-miss of the string to sign.",
-    "C19": "Also with 0..9 unknown fields in front of and 0..300 between the two occurrences of a repeated Authorization parameter; repeated X-Amz-* parameters with either occurrence's name spelled with escapes. A first token of 4..64 KiB; first Authorization / date header padded by 8193 / 70000 bytes. Each X-Amz-* parameter twice among 10 .. 1000 (thorough every count 0 .. 300, up to 2000) other parameters in four layouts. The last occurrence of each parameter between a field that opens a quoted value and one that closes it (4 patterns). Two session tokens against a key store that knows the key under one of them only and answers the other with each of 14 error kinds: the first token's answer is final.",
+    "C19": "Also with 0..9 unknown fields in front of and 0..300 between the two occurrences of a repeated Authorization parameter; repeated X-Amz-* parameters with either occurrence's name spelled with escapes. A first token of 4..64 KiB; first Authorization / date header padded by 8193 / 70000 bytes. Each X-Amz-* parameter twice among 10 .. 1000 (thorough every count 0 .. 300, up to 2000) other parameters in four layouts. The last occurrence of each parameter between a field that opens a quoted value and one that closes it (4 patterns). Two session tokens against a key store that knows the key under one of them only and answers the other with each of 14 error kinds: the first token's answer is final. Repeated query parameters also with empty (and, for X-Amz-Signature, bare) first occurrences: the empty first one counts.",
     "C02": "Header sets include an HTTP-date or stale ISO Date header, Expires, X-Amz-Expires and Content-Length next to X-Amz-Date, and seven names that are prefixes of one another. 15 secrets of special shape (beginning with 'AWS4' / 'aws4_request', one character, blanks, '/', '+', '=', a line end, non-ASCII, 100 characters) x carrier x token. 11 values containing literal, unescaped '=' in the URL and in a folded form body, both spellings, both carriers.",
     "C06": "Secret lengths 0..1100 and around 2^16 and 2^20 for all nine capacities. Plus every sequence of 1..3 (thorough 4) derivations on one thread over 12 secrets that are prefixes / NUL-extensions / case variants of one another x 2 dates, each judged alone. Fills beginning with the literals 'AWS4' / 'aws4_request'. Every AWS region code and pseudo-region (62) x every service signing name (70) x 2 secrets. Regions and services made of an ASCII run of every length 0..140 followed by 2-, 3- and 4-byte characters.",
-    "C08": "Plus 45 request targets of every form (origin, absolute, authority, asterisk, empty) x form bodies x content types x all four option sets, and every empty / one-byte / two-byte value of Content-Type parameters and Authorization fields; server clocks and request dates at the edges of the time types. SignedHeaders lists of 10..104 entries differing in case only, in structured arrangements, rotations and fixed shuffles. Authorization headers made of every sequence of up to 4 (5) fields over ten kinds, with the logger formatting. The child runs under a 12 GiB address-space limit and a wall-clock limit (unbounded allocation and a case that never returns are violations, not machine failures). Requests with 24574 / 24575 / 24576 distinct header names (the most http admits) and 32700 values of one name, plain and as folded form POSTs with Content-Length. An ASCII run of every length 0..300 followed by 2-, 3- and 4-byte characters in each of 11 text inputs, once plausible and once made to be refused. The request-target x form-body sweep under HTTP/1.0, 1.1, 2 and 3, with and without a Host header.",
+    "C08": "Plus 45 request targets of every form (origin, absolute, authority, asterisk, empty) x form bodies x content types x all four option sets, and every empty / one-byte / two-byte value of Content-Type parameters and Authorization fields; server clocks and request dates at the edges of the time types. SignedHeaders lists of 10..104 entries differing in case only, in structured arrangements, rotations and fixed shuffles. Authorization headers made of every sequence of up to 4 (5) fields over ten kinds, with the logger formatting. The child runs under a 12 GiB address-space limit and a wall-clock limit (unbounded allocation and a case that never returns are violations, not machine failures). Requests with 24574 / 24575 / 24576 distinct header names (the most http admits) and 32700 values of one name, plain and as folded form POSTs with Content-Length. An ASCII run of every length 0..300 followed by 2-, 3- and 4-byte characters in each of 11 text inputs, once plausible and once made to be refused. The request-target x form-body sweep under HTTP/1.0, 1.1, 2 and 3, with and without a Host header. Clipped-text alignment: ASCII runs of every length 0..300 and within 24 of each power of two 512..65536 followed by bytes >= 0x80 / raw UTF-8, in 8 positions of the authentication headers, counted from the start of the text and of the whole header value.",
     "C09": "Plus paths behind a first segment padded to 47 lengths (0..5000 bytes) canonicalised in both modes back to back in both orders, and every ordered pair over 78 related (path, mode) symbols on one thread; first segments of 10 000 .. 200 000 bytes (plain, to-be-escaped, escaped) followed by dot-segment tails; the end-to-end path sweep also with folded form bodies. 11 methods x 5 request targets ('*' among them). 8 paths whose normal form differs between the modes x both modes x the server configured for every AWS region (62) x service signing name (70, the S3 family included) x carrier. Climbing, plain and relative paths with an ASCII run of every length 0..300 followed by 2-, 3- and 4-byte characters, both modes. Every pair of adjacent escapes %XX%YY (65 536) inside a segment and as a segment, both modes. Every two and three letters of the segment alphabet written together as one segment, alone / last / in the middle, both modes. 8 dot-segment tails behind 0 .. 300, ~512, 1000, ~4096 and 10 000 kept segments, and a climb back over all of them, both modes.",
     "C10": "Plus every ordered pair over 58 related query strings (prefixes, case / escape / separator variants, long strings differing at the end) back to back on one thread; the end-to-end sweep splits every list between URL and folded form body. Twelve folded form bodies with a raw byte-order mark, zero-width marks, NUL or line ends. 30 folded form bodies of 65 000 .. 1 048 577 bytes that are two pairs and otherwise '&' runs. 52 folded bodies (repeated as URL queries) with entity-like separators ('&amp;', '&#38;', ';', ...). End-to-end lists also behind absolute-form request targets with and without a path.",
     "C11": "Plus a form POST signing 11 entity / framing / payload-digest headers under all four option sets: as signed, 8 replacement values, an added value and removal of each (incl. Cookie / Accept / Cache-Control with two values). Two or three signed names sharing a prefix and parting ways at every ordered pair over 21 header-name characters (all 15 punctuation marks), 3 shapes, sent in lower / upper case, both carriers. Every third refused edit is also applied to the Parts the validator returned for the base request. Unsigned bystanders named like every leading fragment of each declared prefix / required name leave a valid request valid.",
     "C12": "The body-coverage section runs under all four option sets with no / signed / unsigned declared X-Amz-Content-Sha256 and UNSIGNED-PAYLOAD, with replaced and emptied bodies; 27 form bodies of 65-200 kB with small parameters must be folded; every refused undecodable body is followed on the same thread by a correctly signed folded request; 12 degenerate form bodies. Twelve bodies with a raw byte-order mark and other special characters. Presigned folded requests with each X-Amz-* parameter twice (good in the URL and bad in the body, or the reverse) x 0..10 other body x 0 / 2 / 6 other URL parameters x token: the URL's value counts. All-ASCII bodies the declared charset cannot decode (any body under the WHATWG replacement labels, an ESC that starts no sequence under iso-2022-jp) are refused as InvalidBodyEncoding. Every third case of the main product carries accurate, signed Content-Length / Content-MD5 / X-Amz-Content-Sha256 headers. Form fields with a meaning in HTML form submission (_charset_ naming other encodings, isindex, _method) are ordinary parameters. ASCII runs ending next to each of 1 KiB .. 48 KiB followed by 2-, 3- and 4-byte characters.",
-    "C13": "The product has a session-token dimension and date near-misses (well-formed + trailing characters, cut short, expired / future by half a second); every vector with at most two defects is validated right after the fully valid request on the same thread. Defective paths combined with unknown form charsets / undecodable bodies are refused for their path. The missing-parameter dimension also with what is missing (or all four) present in the other carrier's spelling as a decoy. Credential-date look-alikes (leading zero, plus sign, a blank in place of a zero pad) are values of the defect lattice. 11 methods x 6 folded form bodies carrying a rule-4 / 5 / 7 defect, a whole carrier or nothing wrong x with / without an Authorization header.",
+    "C13": "The product has a session-token dimension and date near-misses (well-formed + trailing characters, cut short, expired / future by half a second); every vector with at most two defects is validated right after the fully valid request on the same thread. Defective paths combined with unknown form charsets / undecodable bodies are refused for their path. The missing-parameter dimension also with what is missing (or all four) present in the other carrier's spelling as a decoy. Credential-date look-alikes (leading zero, plus sign, a blank in place of a zero pad) are values of the defect lattice. 11 methods x 6 folded form bodies carrying a rule-4 / 5 / 7 defect, a whole carrier or nothing wrong x with / without an Authorization header. The header-carrier product also with an empty / bare X-Amz-Algorithm parameter as the second carrier.",
     "C14": "Every request class also with a session token; four classes with a folded form body. Two classes whose signature is valid under the all-zero / all-0xFF key. Five more classes at the edges of the freshness window at sub-second resolution (timestamps written with fractions). Three classes whose scope date is a look-alike of the right one. An io::Error of each of the 36 stable ErrorKinds, boxed directly and wrapped as SignatureError::IO, as the call's answer and as the readiness error. Three classes that declare a day of validity through X-Amz-Expires (expired, valid, future).",
     "C15": "Body lengths 11 .. 65537 bytes; the whole product once per logger maximum level (quick: Off, Debug, Trace; thorough: all six); four request forms incl. an absolute-form target without a Host header and ':authority' signed; every second request with a second Authorization / X-Amz-Security-Token header. Folded requests carry accurate Content-Length / Content-MD5 / Content-Encoding / X-Amz-Content-Sha256 headers. Three request targets without a path (authority-form, absolute-form without path, asterisk-form) x methods x versions x body types x options. Folded requests over three more paths with empty / dot segments (one beginning with '//'): the returned path has the normal form of the submitted one under the server's mode. The plain folded path with the form in UTF-8, UTF-16LE and UTF-16BE. Session data holding the 24 global condition keys IAM itself defines, with and without a session token. A fifth header multiset of eight signed method- / host- / target-override headers.",
     "C16": "Plus every ordered pair over ~70 related strings (well-formed timestamps and their look-alikes) parsed back to back on one thread, and the full product of boundary values of month/day x hour x minute x second x zone. Validations differing only in the timestamp multiplexed on one thread in every order of polls. Five timestamps followed by one of 10 separators and a second timestamp (itself once or twice, or another one). Timestamps with each character written as a percent-escape and with truncated escapes appended. Every corpus string also next to a Date header holding a well-formed fresh timestamp. Sequences A, B, A of timestamps whose instants are 2^16, 2^31, 2^32, 2 x 2^32, 2^33 seconds apart, evaluated with nothing else running in the process.",
